@@ -54,7 +54,7 @@ func init() { register("C12", runC12) }
 
 type C12Input struct {
 	Kind     string     `json:"kind"` // pair | mix | netmach
-	Warm     bool       `json:"warm"` // StateNames() called before the goroutines start
+	Warm     bool       `json:"warm"` // StateNames() called before the goroutines start (irrelevant to the prediction since f998d9b; cold programs stay as regression)
 	Log      int        `json:"log"`  // 0 = LogNothing; else the level, with a no-op logger
 	Handlers bool       `json:"handlers"`
 	Tracer   bool       `json:"tracer"`
@@ -907,7 +907,11 @@ var c12ReFuncSuffix = regexp.MustCompile(`(\.func\d+|\.\d+|\[[^\]]*\]|\(\))+$`)
 // line numbers are those of the compiled binary; if the file changed since
 // (exact=false) the function is looked up by name instead.
 func c12FuncBounds(f c12Frame) (lo, hi int, exact bool) {
-	short := c12ReFuncSuffix.ReplaceAllString(f.Fn, "")
+	short := f.Fn
+	if k := strings.Index(short, "["); k >= 0 { // generic instantiation
+		short = short[:k]
+	}
+	short = c12ReFuncSuffix.ReplaceAllString(short, "")
 	if k := strings.LastIndex(short, "."); k >= 0 {
 		short = short[k+1:]
 	}
@@ -942,6 +946,7 @@ func c12FuncBounds(f c12Frame) (lo, hi int, exact bool) {
 // fields named anywhere in the function enclosing the innermost repo frame
 func (t *c12Table) funcFields(frames []c12Frame) map[int]bool {
 	fields := map[int]bool{}
+	depth := 0
 	for _, f := range frames {
 		if strings.HasPrefix(f.Fn, "main.") {
 			return fields
@@ -955,25 +960,27 @@ func (t *c12Table) funcFields(frames []c12Frame) map[int]bool {
 		default:
 			continue
 		}
+		depth++
 		lo, hi, _ := c12FuncBounds(f)
-		if lo == 0 {
+		if lo > 0 {
+			var body strings.Builder
+			for l := lo; l <= hi; l++ {
+				body.WriteString(c12Line(f.File, l))
+				body.WriteByte('\n')
+			}
+			for ident, id := range t.Idents[pkg] {
+				pat := `\.` + ident + `\b`
+				if strings.Contains(ident, ".") {
+					pat = `\b` + regexp.QuoteMeta(ident) + `\b`
+				}
+				if regexp.MustCompile(pat).MatchString(body.String()) {
+					fields[id] = true
+				}
+			}
+		}
+		if len(fields) > 0 || depth >= 4 {
 			return fields
 		}
-		var body strings.Builder
-		for l := lo; l <= hi; l++ {
-			body.WriteString(c12Line(f.File, l))
-			body.WriteByte('\n')
-		}
-		for ident, id := range t.Idents[pkg] {
-			pat := `\.` + ident + `\b`
-			if strings.Contains(ident, ".") {
-				pat = `\b` + regexp.QuoteMeta(ident) + `\b`
-			}
-			if regexp.MustCompile(pat).MatchString(body.String()) {
-				fields[id] = true
-			}
-		}
-		return fields
 	}
 	return fields
 }
